@@ -327,15 +327,83 @@ print(json.dumps(res))
 """
 
 
+PYALONE = r"""
+import sys, importlib, inspect, typing, os
+out, rel = sys.argv[1], sys.argv[2]
+sys.path.insert(0, out)
+mod = rel[:-3].replace(os.sep, '.')
+m = importlib.import_module(mod)
+n = 0
+for name, cls in sorted(vars(m).items()):
+    if not (inspect.isclass(cls) and cls.__module__ == m.__name__):
+        continue
+    todo = [cls] + [c for c in vars(cls).values() if inspect.isclass(c) and c.__module__ == m.__name__]
+    for c in todo:
+        if c is not cls and not hasattr(c, '_serialize_'):
+            continue
+        if not hasattr(c, '_serialize_') and not hasattr(c, 'Request'):
+            continue
+        typing.get_type_hints(c.__init__, vars(m))
+        for fn in vars(c).values():
+            if isinstance(fn, property) and fn.fget is not None:
+                typing.get_type_hints(fn.fget, vars(m))
+        if hasattr(c, '_serialize_'):
+            repr(c())
+        n += 1
+print('RESOLVED', n)
+"""
+
+
+def py_module_alone(args):
+    """The module, imported first and alone in a fresh interpreter, must resolve every name its definitions mention:
+    annotations are evaluated and every class is default-constructed and printed."""
+    out, rel = args
+    env = common.child_env()
+    env["PYTHONPATH"] = os.path.join(common.VERIF, ".deps")
+    p = common.run([common.PY, "-c", PYALONE, out, rel], env=env, cwd=out, timeout=300)
+    m = re.search(r"RESOLVED (\d+)", p.stdout)
+    if p.returncode == 0 and m:
+        return rel, int(m.group(1)), ""
+    frames = [os.path.relpath(f, out) for f in re.findall(r'File "([^"]+)"', p.stderr) if f.startswith(out + os.sep)]
+    return rel, -1, (p.stderr.strip().splitlines() or ["rc=%d" % p.returncode])[-1][:300] + (" @" + frames[-1] if frames else "")
+
+
+PREFIX_SET = {
+    # namespaces related by string prefix (reg / reg.sub / regulated / reg.subx), referenced in both orders, across roots
+    "reg/Leaf.1.0.dsdl": "uint8 a\n@sealed\n",
+    "reg/sub/Leaf.1.0.dsdl": "uint8 a\nreg.Leaf.1.0 up\n@sealed\n",
+    "reg/subx/Leaf.1.0.dsdl": "uint8 a\n@sealed\n",
+    "reg/sub/deep/Leaf.1.0.dsdl": "reg.sub.Leaf.1.0 up\nreg.subx.Leaf.1.0 side\n@sealed\n",
+    "regulated/Thing.1.0.dsdl": "uint8 a\nreg.Leaf.1.0[<=2] other\n@sealed\n",
+    "reg/TopA.1.0.dsdl": "reg.Leaf.1.0 a\nreg.sub.Leaf.1.0 b\nregulated.Thing.1.0 c\nreg.subx.Leaf.1.0[2] d\nreg.sub.deep.Leaf.1.0[<=2] e\n@sealed\n",
+    "reg/TopB.1.0.dsdl": "reg.sub.deep.Leaf.1.0 e\nreg.subx.Leaf.1.0 d\nregulated.Thing.1.0 c\nreg.sub.Leaf.1.0 b\nreg.Leaf.1.0 a\n@extent 64 * 8\n",
+    "reg/TopU.1.0.dsdl": "@union\nreg.sub.Leaf.1.0 b\nregulated.Thing.1.0 c\nreg.subx.Leaf.1.0 d\n@sealed\n",
+    "reg/sub/Svc.1.0.dsdl": "reg.Leaf.1.0 a\nregulated.Thing.1.0 c\n@sealed\n---\nreg.sub.deep.Leaf.1.0 e\nreg.subx.Leaf.1.0 d\n@sealed\n",
+    "regulated/Back.1.0.dsdl": "reg.Leaf.1.0 a\nreg.sub.Leaf.1.0 b\nregulated.Thing.1.0 c\n@sealed\n",
+}
+
+
+def write_prefix_set(dsdl_dir):
+    for rel, text in PREFIX_SET.items():
+        os.makedirs(os.path.dirname(os.path.join(dsdl_dir, rel)), exist_ok=True)
+        with open(os.path.join(dsdl_dir, rel), "w") as f:
+            f.write(text)
+    roots = ["reg", "regulated"]
+    return roots, dsdlgen.read_all(dsdl_dir, roots), 0
+
+
 def one_set(ctx, idx, cflags, cxxflags):
-    R = random.Random("c06/%s/%d" % (ctx.seed, idx))
-    d = ctx.sub("s%d" % idx)
+    R = random.Random("c06/%s/%s" % (ctx.seed, idx))
+    d = ctx.sub("s%s" % idx)
     dsdl_dir = os.path.join(d, "dsdl")
-    roots, parsed, rejected = dsdlgen.make_set(dsdl_dir, "c06/%s/%d" % (ctx.seed, idx), "hostile", nroots=2, docs=True, allow=("hostile_c_docs", "extreme_consts", "deprecated", "port_id"))
+    if idx == "prefix":
+        roots, parsed, rejected = write_prefix_set(dsdl_dir)
+    else:
+        roots, parsed, rejected = dsdlgen.make_set(dsdl_dir, "c06/%s/%d" % (ctx.seed, idx), "hostile", nroots=2, docs=True, allow=("hostile_c_docs", "extreme_consts", "deprecated", "port_id"))
     ctx.count("drafts_rejected_by_frontend", rejected)
     alltypes = [t for r in roots for t in parsed[r]]
     witness = dict(set=idx, seed=ctx.seed, roots=roots)
-    if idx % 2 == 0:
+    if idx == "prefix" or idx % 2 == 0:
         inprocess_generation_with_contract(ctx, dsdl_dir, roots, parsed, d)
     configs = []
     for omit in (False, True):
@@ -389,6 +457,21 @@ def one_set(ctx, idx, cflags, cxxflags):
             except Exception:
                 ctx.refute(None, "%s: python module check crashed" % tag, dict(witness, stderr=p.stderr[-800:]))
                 res = {}
+            if not omit:
+                cand = [r for r in rels if not r.endswith("__init__.py") and not r.startswith("nunavut_support")]
+                if ctx.quick and len(cand) > 32:
+                    cand = R.sample(cand, 32)
+                with concurrent.futures.ThreadPoolExecutor(common.NCPU) as ex:
+                    for rel, n, err in ex.map(py_module_alone, [(out, r) for r in cand]):
+                        ctx.count("evaluations")
+                        ctx.count("python_modules_resolved_alone_in_fresh_interpreter")
+                        if n < 0 and re.search(r"NameError: name '\w+' is not defined|AttributeError: module '[\w\.]+' has no attribute|ModuleNotFoundError|ImportError", err):
+                            ctx.refute(None, "%s: module %s imported alone refers to a module it does not import: %s" % (tag, rel, err[:200]), dict(witness, config=tag, file=rel, error=err))
+                        elif n < 0:
+                            # anything else raised by default construction is the API's behaviour (C18), not a missing module
+                            ctx.count("python_default_construction_failed_otherwise_not_judged_here")
+                        else:
+                            ctx.count("python_classes_default_constructed", n)
             for rel, st in sorted(res.items()):
                 ctx.count("evaluations")
                 ctx.count("python_modules_checked")
@@ -463,6 +546,7 @@ def run(ctx):
     ctx.extra["strict_flags"] = dict(c=cflags, cxx_extra=cxxflags)
     ctx.rule = ("case = (namespace set, language, standard, serialization on/omitted, generated file, compiler); distinct = distinct (file, compiler) translation units "
                 "and modules that built/imported without any diagnostic")
+    one_set(ctx, "prefix", cflags, cxxflags)
     for i in range(ctx.pick(3, 40)):
         one_set(ctx, i, cflags, cxxflags)
     ctx.require("translation_units_clean", 100)
